@@ -732,7 +732,53 @@ def formatter_configuration(chk):
         chk.ok(rule, init.qual, "whitelist = set(tags) for mappings and iterables; defaults = the mapping itself, else empty", node=init.node, input="tags None / mapping / iterable")
 
 
+def empty_payload(chk):
+    """O17.8: `logger.info(msg, {})` reaches the formatter as record.args == ({},) (logging only unwraps a NON-empty
+    mapping); both formatters must continue with an empty mapping, or the record with no data is lost"""
+    prog = chk.program
+    rule = "O17.8"
+    for qual in (LINE_FMT, JSON_FMT):
+        cls = prog.cls(qual)
+        fmt = prog.lookup_method(cls, "format")
+        if fmt is None:
+            chk.missing(rule, qual)
+            continue
+        rec = ("sym", fmt.params()[0])
+        ARGS = ("attr", rec, "args")
+        hit = {"n": 0}
+
+        def decide(it, path, term):
+            if term[0] == "cmp" and term[1] == "==" and ARGS in (term[2], term[3]) and any(x[0] == "tuple" for x in (term[2], term[3])):
+                hit["n"] += 1
+                return True
+            return None
+
+        outs = Interp(prog, fmt, decide=decide, unroll=1, assert_raises=False, inline=lambda f, ct: f.cls is cls and f is not fmt).run()
+        chk.count(len(outs))
+        if not hit["n"] and any((isinstance(n, ast.Call) and util.dotted(n.func) == "isinstance" and "tuple" in util.unparse(n)) or (isinstance(n, ast.Subscript) and "args" in util.unparse(n.value)) for n in ast.walk(fmt.node)):
+            chk.undecided(rule, fmt.qual, "the empty-payload case is not written as a comparison with ({},)", node=fmt.node, aux=True)
+            continue
+        if not hit["n"]:
+            # no special case: fine only if the code never needs args to be a mapping -- not the shipped shape
+            chk.bad(rule, fmt.qual, "the formatter has no case for record.args == ({},): a record logged with an empty mapping is treated as a tuple of arguments and fails to format", node=fmt.node, stmt="empty-payload-case")
+            continue
+        ok = True
+        for o in outs:
+            if o.kind == "raise":
+                continue
+            # every later use of the payload must see an empty mapping, i.e. the name bound to record.args is re-bound
+            names = [e[1] for e in o.path.events if e[0] == "bind" and e[2] == ARGS]
+            rebound = [e for e in o.path.events if e[0] == "bind" and e[1] in names and strip_sites(e[2]) in (("dict", ()), ("call", ("glob", "ext:builtins.dict"), (), ()))]
+            if names and not rebound:
+                chk.bad(rule, fmt.qual, "when record.args == ({},) the payload is not replaced by an empty mapping: the tuple ({},) is then used as the record's data and formatting fails, so the record is lost", node=fmt.node, stmt="empty-payload-not-normalised")
+                ok = False
+                break
+        if ok:
+            chk.ok(rule, fmt.qual, "record.args == ({},) continues with an empty mapping", node=fmt.node)
+
+
 def run(chk):
+    chk.guard("O17.8", LINE_FMT, empty_payload, chk)
     chk.guard("O17.7", JSON_FMT, formatter_configuration, chk)
     chk.guard("O17.1", LINE, line_protocol_rules, chk)
     chk.guard("O17.5", LINE_FMT, line_formatter_rules, chk)
